@@ -20,7 +20,7 @@ import Redress.Generated.LockShapeAudit
 #print axioms Redress.C17.seq_failures_open_at_most_once
 #print axioms Redress.C17.seq_two_consumes_one_slot
 #print axioms Redress.C17.seq_consume_full_refused
-#print axioms Redress.C17.racing_probes_exactly_one_admitted
+#print axioms Redress.C17.racing_probes_exactly_one_allowed
 #print axioms Redress.C17.racing_failures_open_exactly_once
 #print axioms Redress.C17.racing_consume_never_overgrants
 #print axioms Redress.Threads.wl_step
